@@ -13,7 +13,7 @@ import argparse, json, os, re, shutil, subprocess, sys, time
 
 ENV = dict(os.environ, GOFLAGS="-mod=mod", GOPROXY="off")
 ENV.pop("GOSUMDB", None); ENV.pop("GOTOOLCHAIN", None)
-FLAKY = re.compile(r"TestGracefulShutdown|TestProxyWSUpstream|TestTCP|TestConsulSource|TestVaultSource|TestVaultPKISource")
+FLAKY = re.compile(r"TestProxyProducesCorrectXForwardedSomethingHeader|TestProxyLogOutput|TestCustomRoutes|TestGracefulShutdown|TestProxyWSUpstream|TestTCP|TestConsulSource|TestVaultSource|TestVaultPKISource")
 
 
 def sh(cmd, cwd=None, env=None, timeout=1800):
